@@ -1,0 +1,22 @@
+//go:build verif
+
+package server
+
+import "github.com/janelia-flyem/dvid/datastore"
+
+// VerifRPC runs a command through the real RPC switchboard (verification harness only), e.g.
+// VerifRPC("repo", uuid, "copy", "src", "dst") or VerifRPC("repos", "delete", uuid, passcode).
+func VerifRPC(command ...string) (text string, err error) {
+	req := datastore.Request{Command: command}
+	reply, err := handleCommand(&req)
+	if reply != nil {
+		text = reply.Text
+	}
+	return text, err
+}
+
+// VerifSetModes switches the server's read-only / full-write modes (verification harness only).
+func VerifSetModes(ro, fw bool) {
+	readonly = ro
+	fullwrite = fw
+}
